@@ -603,6 +603,48 @@ def c14(ctx):
     audited = ctx.par(audit, range(2 if ctx.quick else 8), workers=4)
     ctx.traces_impl += sum(1 for a in audited if a)
     ctx.cov["fsync_audit_syscalls_checked"] = sum(audited)
+    # one wal file, every byte offset: WAL.Read of real logs cut at every length (WalLog.tla / TraceWal.tla)
+    models.run_family(ctx, "wal")
+    wout = os.path.join(ctx.scratch, "walcut")
+    rc, o = ctx.drv(drv, ["walcut", "-seed", ctx.seed, "-n", 40 if ctx.quick else 400, "-recs", 5 if ctx.quick else 7,
+                          "-out", wout], timeout=1800)
+    if rc != 0:
+        raise Machinery("walcut driver failed rc=%s: %s" % (rc, o[-1500:]))
+    wp = os.path.join(wout, "walcut.ndjson")
+    r = tlc.validate_trace("TraceWal", open(os.path.join(tlc.SPECS, "TraceWal.cfg")).read(), wp, timeout=1800)
+    ctx.states += r["distinct"]
+    ctx.transitions += r["states"]
+    if r["machinery_error"]:
+        raise Machinery("TraceWal validation failed to run: " + r["out"][-1500:])
+    wsum = json.load(open(os.path.join(wout, "summary.json")))
+    ctx.cov["wal_cut_reads_checked"] = wsum["events"]
+    ctx.cov["wal_cuts_losing_records"] = wsum["cuts_losing_records"]
+    if not r["accepted"]:
+        lines = open(wp).read().splitlines()
+        e = json.loads(lines[r["highwater"] - 1])
+        rp = ctx.save_replay("c14-walcut-%d-%d.json" % (e["log"], e["cut"]), e)
+        ctx.violation(rp, "WAL.Read of a log cut at byte %d (fsync boundaries %s, records up to them %s) %s: a torn tail "
+                          "must end the log, and every record of a completed Write before the cut must be returned" % (
+                              e["cut"], e["bends"], e["bcnt"],
+                              ("failed: " + e["detail"]) if e["err"] else
+                              ("returned wrong entries: " + e["detail"]) if not e["same"] else
+                              "returned only %d entries" % e["got"]), match={"kind": "walcut"})
+    else:
+        ctx.traces_impl += wsum["logs"]
+        # the stronger, format-specific statement of WalLog.tla (exactly the whole records, 8-byte headers)
+        exact = 0
+        for ln in open(wp):
+            e = json.loads(ln)
+            c, n = e["cut"], 0
+            for sz in e["sizes"]:
+                if 8 + sz > c:
+                    break
+                c -= 8 + sz
+                n += 1
+            exact += (n == e["got"])
+        if exact != wsum["events"]:
+            ctx.drift.append("WAL.Read returned something else than 'exactly the whole records' (8-byte length headers) "
+                             "for %d of %d cuts: the record format differs from WalLog.tla" % (wsum["events"] - exact, wsum["events"]))
 
 
 # --------------------------------------------------------------------------- C13
